@@ -19,8 +19,25 @@ var _ backoff.BackOff
 //@ func parseCipherSuiteRecordData
 //@ props C05 C16
 //@ assigns nothing
+//@ invariant 0 [frame.joined-window] len(cur(joined)) <= len(joined) && window(cur(joined), joined, len(joined)-len(cur(joined)), len(joined)) // what is still to parse is a suffix of the input
 //@ invariant 1 [frame.integ-new] isnew(integrityAlgorithms)
+//@ invariant 1 [C16.rec-start] len(cur(joined)) >= 3+3*int(cur(joined)[0]&1) && cur(joined)[0]>>1 == 0x60
+//@ invariant 1 [C16.rec-id] record.CipherSuiteID == ipmi.CipherSuiteID(cur(joined)[1])
+//@ invariant 1 [C16.rec-auth] uint8(record.AuthenticationAlgorithm) == cur(joined)[2+3*int(cur(joined)[0]&1)] && cur(joined)[2+3*int(cur(joined)[0]&1)]>>6 == 0
+//@ invariant 1 [C16.rec-oem] uint32(record.Enterprise) == ite(cur(joined)[0]&1 == 1, uint32(cur(joined)[2])+uint32(cur(joined)[3])<<8+uint32(cur(joined)[4])<<16, uint32(0))
+//@ invariant 1 [C16.integ-offset] offset == 3+3*int(cur(joined)[0]&1)+len(integrityAlgorithms) && offset <= len(cur(joined))
+//@ invariant 1 [C16.integ-list] forall(qj, 0, len(integrityAlgorithms), cur(joined)[offset-len(integrityAlgorithms)+qj]>>6 == 1 && uint8(integrityAlgorithms[qj]) == cur(joined)[offset-len(integrityAlgorithms)+qj]&0x3f)
 //@ invariant 2 [frame.conf-new] isnew(confidentialityAlgorithms)
+//@ invariant 2 [frame.integ-kept] isnew(integrityAlgorithms) && len(integrityAlgorithms) >= 1 && otherarray(integrityAlgorithms, confidentialityAlgorithms)
+//@ invariant 2 [C16.rec-start] len(cur(joined)) >= 3+3*int(cur(joined)[0]&1) && cur(joined)[0]>>1 == 0x60
+//@ invariant 2 [C16.rec-id] record.CipherSuiteID == ipmi.CipherSuiteID(cur(joined)[1])
+//@ invariant 2 [C16.rec-auth] uint8(record.AuthenticationAlgorithm) == cur(joined)[2+3*int(cur(joined)[0]&1)] && cur(joined)[2+3*int(cur(joined)[0]&1)]>>6 == 0
+//@ invariant 2 [C16.rec-oem] uint32(record.Enterprise) == ite(cur(joined)[0]&1 == 1, uint32(cur(joined)[2])+uint32(cur(joined)[3])<<8+uint32(cur(joined)[4])<<16, uint32(0))
+//@ invariant 2 [C16.conf-offset] offset-len(confidentialityAlgorithms) >= 3+3*int(cur(joined)[0]&1) && offset <= len(cur(joined))
+//@ invariant 2 [C16.c-integ-none] offset-len(confidentialityAlgorithms) == 3+3*int(cur(joined)[0]&1) ==> len(integrityAlgorithms) == 1 && integrityAlgorithms[0] == ipmi.IntegrityAlgorithmNone
+//@ invariant 2 [C16.c-integ-len] offset-len(confidentialityAlgorithms) > 3+3*int(cur(joined)[0]&1) ==> len(integrityAlgorithms) == offset-len(confidentialityAlgorithms)-(3+3*int(cur(joined)[0]&1))
+//@ invariant 2 [C16.c-integ-maximal] offset-len(confidentialityAlgorithms) < len(cur(joined)) ==> cur(joined)[offset-len(confidentialityAlgorithms)]>>6 != 1
+//@ invariant 2 [C16.conf-list] forall(qj, 0, len(confidentialityAlgorithms), cur(joined)[offset-len(confidentialityAlgorithms)+qj]>>6 == 2 && uint8(confidentialityAlgorithms[qj]) == cur(joined)[offset-len(confidentialityAlgorithms)+qj]&0x3f)
 //@ invariant 4 [C16.cross-inner] len(records) == atentry(len(records)) + rangeindex + 1
 //@ invariant 3 [C16.cross-outer] len(records) == atentry(len(records)) + (rangeindex+1)*len(confidentialityAlgorithms)
 //@ ensures [C16.no-partial] result1 != nil ==> isnil(result0)
